@@ -7,9 +7,9 @@ namespace Rosmar
 
 /-- **Between the markers, in CAS order, exactly the current version of every document (tombstones included) whose
     CAS is at least the start CAS** — one event per stored row. -/
-theorem C09_snapshot (s : State) (id c : String) (start : Nat) (dump ko : Bool) (x : Coll) (hx : s.coll? c = some x) :
+theorem C09_snapshot (s : State) (id c : String) (start : Nat) (ko : Bool) (x : Coll) (hx : s.coll? c = some x) :
     ∃ rows : List (String × Row),
-      ((opStartFeed s id c (.from start) dump ko).1.feeds.getLast?.map (·.pending)) =
+      ((opStartFeed s id c (.from start) false ko).1.feeds.getLast?.map (·.pending)) =
         some ([.beginBackfill] ++ rows.map (fun d => .ev (backfillEvent d.1 d.2 ko) x.id false) ++ [.endBackfill]) ∧
       rows.Pairwise (fun a b => a.2.cas ≤ b.2.cas) ∧
       rows.Perm (x.docs.filter (fun d => d.2.cas ≥ start)) ∧
